@@ -48,7 +48,7 @@ def run_case(spec, ctx):
     model, poison = vines.fit(ctx, spec['vine_type'], df, spec['truncated'], spec['sentinel'])
     if poison is None:
         exc = model
-        if isinstance(exc, ValueError):
+        if vines.is_refusal(exc):
             ctx.note('fit refused with ValueError (%s)' % t['pattern'])
             ctx.ok('vine.refused')
             return
